@@ -1,8 +1,8 @@
 (* C11 -- Binary-to-text and wire codecs are exact inverses on their whole domain.
    Statements only; every proof is [exact <lemma>] with Print Assumptions beneath. *)
 From Coq Require Import NArith ZArith Arith List.
-From BU Require Import Base.Exn Base.Bytes Gen.Consts Gen.CodecConsts Model.Base58 Model.Base58Xmr Model.Codecs Model.IntBytes Model.Scale.
-From BU Require Lemmas.Base58 Lemmas.ConstsOk Lemmas.XmrConstsOk Lemmas.IntBytes Lemmas.ConvertBitsOk Lemmas.Base32 Lemmas.Base32Ok Lemmas.SS58Ok Lemmas.ScaleOk.
+From BU Require Import Base.Exn Base.Bytes Gen.Consts Gen.CodecConsts Model.Base58 Model.Base58Xmr Model.Codecs Model.IntBytes Model.Scale Model.Cbor.
+From BU Require Lemmas.Base58 Lemmas.ConstsOk Lemmas.XmrConstsOk Lemmas.IntBytes Lemmas.ConvertBitsOk Lemmas.Base32 Lemmas.Base32Ok Lemmas.SS58Ok Lemmas.ScaleOk Lemmas.CborOk.
 Import ListNotations.
 Open Scope N_scope.
 
@@ -381,3 +381,44 @@ Theorem scale_uint_range : forall kind w v, nth_error scale_uint_byte_lens kind 
   (v < 0 \/ Z.of_N (256 ^ w) <= v)%Z -> Codecs.scale_uint_encode kind v = Err ValueError.
 Proof. exact ScaleOk.scale_uint_range. Qed.
 Print Assumptions scale_uint_range.
+
+(* ------------------------------------------------------------------ CBOR indefinite-length array *)
+(* cbor2's integer coding is modelled from RFC 8949 (major type 0, preferred serialisation), tied to cbor2 by
+   the correspondence run only.  The decode loop is fuel-bounded by the input length and provably never runs
+   out (cbor_decode_err: the only error class is ValueError). *)
+
+Theorem cbor_ids : cbor_uint8 = 24 /\ cbor_uint16 = 25 /\ cbor_uint32 = 26 /\ cbor_uint64 = 27 /\
+  cbor_indef_len_array_start = 159 /\ cbor_indef_len_array_end = 255.
+Proof. exact CborOk.cbor_ids. Qed.
+Print Assumptions cbor_ids.
+
+Theorem cbor_array_roundtrip : forall l, l <> [] -> Forall (fun n => n < 2 ^ 64) l ->
+  Codecs.cbor_decode (Codecs.cbor_encode (map Z.of_N l)) = Ok (map (fun n => Cbor.CInt (Z.of_N n)) l).
+Proof. exact CborOk.cbor_array_roundtrip. Qed.
+Print Assumptions cbor_array_roundtrip.
+
+Example cbor_array_roundtrip_ex : [0; 23; 24; 2 ^ 32; 2 ^ 64 - 1] <> [] /\
+  Forall (fun n => n < 2 ^ 64) [0; 23; 24; 2 ^ 32; 2 ^ 64 - 1].
+Proof. split; [discriminate|]. repeat constructor. Qed.
+Print Assumptions cbor_array_roundtrip_ex.
+
+(* the full-strength statement (all lists) fails exactly at the empty array: finding C11-CBOR-EMPTY *)
+Theorem cbor_array_roundtrip_empty_refuted : Codecs.cbor_decode (Codecs.cbor_encode []) = Err ValueError.
+Proof. exact CborOk.cbor_array_roundtrip_empty_refuted. Qed.
+Print Assumptions cbor_array_roundtrip_empty_refuted.
+
+Theorem cbor_encode_standard : forall l, Forall (fun n => n < 2 ^ 64) l ->
+  Codecs.cbor_encode (map Z.of_N l) = [159] ++ concat (map (Cbor.cbor_head 0) l) ++ [255].
+Proof. exact CborOk.cbor_encode_standard. Qed.
+Print Assumptions cbor_encode_standard.
+
+Theorem cbor_decode_err : forall enc e, Codecs.cbor_decode enc = Err e -> e = ValueError.
+Proof. exact CborOk.cbor_decode_err. Qed.
+Print Assumptions cbor_decode_err.
+
+(* decode-then-encode does NOT hold (material for C10): non-minimal heads and trailing bytes are accepted *)
+Theorem cbor_canonical_refuted :
+  Codecs.cbor_decode [159; 24; 5; 255] = Ok [Cbor.CInt 5] /\ Codecs.cbor_encode [5%Z] <> [159; 24; 5; 255] /\
+  Codecs.cbor_decode [159; 255; 0; 255] = Ok [].
+Proof. exact CborOk.cbor_canonical_refuted. Qed.
+Print Assumptions cbor_canonical_refuted.
